@@ -94,6 +94,12 @@ func (p *Proxy) ServeHTTP(w http.ResponseWriter, proxyReq *http.Request) {
 	} else {
 		if err := p.handleHTTP(r, proxyReq); err != nil {
 			slog.Error("Error handling HTTP request", "error", err)
+			if errors.Is(err, ErrClientResponseFailed) {
+				// The response was only partly written (for example the upstream body broke off). Returning
+				// normally would let the server finish a chunked response cleanly, and the client would take the
+				// truncated body for the whole one; aborting closes the connection instead.
+				panic(http.ErrAbortHandler)
+			}
 			return
 		}
 	}
